@@ -270,13 +270,13 @@ def check_class(src, cls):
     want_refuse = sorted(norm(g) for g in guards)
     got_refuse = sorted(norm(p.guards[-1]) for p in refusing)
     if want_refuse != got_refuse:
-        bad.append('%s.__init__ refuses under %r, contract says %r' % (cls, got_refuse, want_refuse))
+        bad.append(('%s.__init__ refuses under %r, contract says %r' % (cls, got_refuse, want_refuse), ' or '.join('(%s)' % g for g in got_refuse) or 'False', (' or '.join('(%s)' % g for g in want_refuse) or 'False',)))
     for p in normal:
         for f, e in fields.items():
             got = text(p.fields[f]) if f in p.fields else '<unset>'
             alts = e if isinstance(e, tuple) else (e,)          # a field that depends on which optional argument was given
             if norm(got) not in [norm(x) for x in alts]:
-                bad.append('%s.__init__: self.%s == %s, contract says %s' % (cls, f, got, ' or '.join(norm(x) for x in alts)))
+                bad.append(('%s.__init__: self.%s == %s, contract says %s' % (cls, f, got, ' or '.join(norm(x) for x in alts)), got, alts))
         if sorted(norm_loop(x) for x in p.loops) != sorted(norm_loop(x) for x in loops):
             bad.append('%s.__init__: loops %r, contract says %r' % (cls, p.loops, loops))
     return bad, False
@@ -286,7 +286,54 @@ def norm_loop(s):
     return ast.unparse(ast.parse(s))
 
 
-def enumerate_ctors(src, pid):
+def _samples(C):
+    """argument values on which two candidate field expressions are compared (by name of the constructor parameter)"""
+    core = C.core
+    base = dict(subcon=core.Byte, length=3, signed=True, swapped=False, endianity='<', format='H', encoding='utf8', count=2, discard=False, predicate=None,
+                newname='n', newdocs='', newparsed=None, func=None, value=b'ab', parsebuildfrom='a', parsefrom=0, condfunc=None, thensubcon=core.Byte, elsesubcon=core.Int16ub,
+                keyfunc=None, cases={1: core.Byte}, default=None, pattern=b'\x00', modulus=4, offset=0, stream=None, endoffset=0, at=0, whence=0, lengthfield=core.Byte,
+                includelength=False, term=b'\x00', include=False, consume=True, require=True, pad=b'\x00', datafunc=b'', decodefunc=None, decodeamount=1, encodefunc=None,
+                encodeamount=1, decoder=None, decoderunit=1, encoder=None, encoderunit=1, sizecomputer=None, padfunc=1, amount=1, group=1, checksumfield=core.Byte, hashfunc=None,
+                bytesfunc=None, subcons=('a' / core.Byte, core.Int16ub), subconskw={}, merge=(), mapping={'a': 1, 'b': 1, 'c': 2}, flags={'a': 1, 'b': 2})
+    base["mapping'"] = {'a': 1, 'b': 1, 'c': 2}
+    base["flags'"] = {'a': 1, 'b': 2, 'ab': 3}
+    variants = [base, dict(base, pattern=b'xy', subcon=3, value=3, parsefrom=core.Byte, endianity='?', format='x', encoding='', newname=None, default=core.Byte, subcons=(core.Byte,))]
+    return variants
+
+
+def _eval(C, expr, env):
+    ns = dict(vars(C.core))
+    ns.update({k.replace("'", '_after_loop'): v for k, v in env.items()})
+    try:
+        return ('value', eval(compile(expr.replace("'.", '_after_loop.').replace("' ", '_after_loop ').replace("')", '_after_loop)') if "'" in expr else expr, '<ctor>', 'eval'), ns))
+    except Exception as e:
+        return ('raises', type(e).__name__)
+
+
+def _same(a, b):
+    if a[0] != b[0]:
+        return False
+    if a[0] == 'raises':
+        return True
+    x, y = a[1], b[1]
+    try:
+        if isinstance(x, dict) and isinstance(y, dict):
+            return list(x.items()) == list(y.items()) and [type(k) for k in x] == [type(k) for k in y]
+        return type(x) is type(y) and (x == y or repr(x) == repr(y))
+    except Exception:
+        return repr(x) == repr(y)
+
+
+def distinguish(C, got, want):
+    """an argument sample on which the two expressions differ, or None (then the textual difference may be harmless)"""
+    for env in _samples(C):
+        a, b = _eval(C, got, env), _eval(C, want, env)
+        if not _same(a, b):
+            return {k: repr(v)[:60] for k, v in env.items() if k.rstrip("'") in got or k.rstrip("'") in want}, a, b
+    return None
+
+
+def enumerate_ctors(src, pid, C=None):
     """table rows (name, entries, mismatches) for the constructors whose fields the contracts of property pid read"""
     n, bad, undecided = 0, [], []
     for cls, (fields, guards, loops, props) in SPECS.items():
@@ -294,7 +341,21 @@ def enumerate_ctors(src, pid):
             continue
         n += len(fields) + len(guards) + len(loops)
         b, und = check_class(src, cls)
-        (undecided if und else bad).extend(b)
+        for item in b:
+            if und or not isinstance(item, tuple):
+                (undecided if und else bad).append(item if not isinstance(item, tuple) else item[0])
+                continue
+            msg, got, alts = item
+            # a textual difference is a violation only when some argument values tell the two expressions apart on the real classes;
+            # otherwise it may be a harmless rewrite: undecided
+            w = None
+            if C is not None:
+                ws = [distinguish(C, got, a) for a in alts]
+                w = None if any(x is None for x in ws) else ws[0]
+            if C is None or w is not None:
+                bad.append(msg + ('' if w is None else '   [arguments %s: code gives %s, contract %s]' % (w[0], w[1], w[2])))
+            else:
+                undecided.append(msg + '   [no argument sample tells the two apart: possibly a harmless rewrite]')
     return ('constructor contracts: every field the method contracts read is the stated function of the arguments (symbolic execution of __init__, normal-form identity)', n, bad), undecided
 
 
@@ -308,5 +369,5 @@ if __name__ == '__main__':
         b, und = check_class(src, cls)
         tot += len(b)
         for x in b:
-            print(('UNDECIDED ' if und else 'MISMATCH ') + x)
+            print(('UNDECIDED ' if und else 'MISMATCH ') + (x[0] if isinstance(x, tuple) else x))
     print(len(SPECS), 'constructors,', tot, 'mismatches')
